@@ -16,7 +16,8 @@ pub enum Ev {
     CbStarted { gid: int, ok: bool }, CbStopped { gid: int }, CbFinished { gid: int },
     DeqTask { pid: int }, DeqStop, DeqRestart, DeqNone, StreamItem { k: int }, StreamEnd,
     RunDone { pid: int, gid: int }, RunAbandoned { pid: int }, TimersCleared, Recreated { gid: int }, Notify,
-    Slept { d: int }, Submit { chan: int, force: bool, ok: bool }, BgRun { code: int },      // timer-task events (C10); they do not move the lifecycle automaton
+    // events of client / timer tasks (C01, C02, C09, C10, C16); they do not move the lifecycle automaton of an actor task
+    Slept { d: int }, Enq { chan: int, pid: int, force: bool }, BgRun { code: int }, Handled { mid: int }, OsSend { slot: int, val: int }, OsRecv { slot: int },
 }
 pub open spec fn started_phase_ok(s: Lc, gid: int) -> bool { (s.ph is Fresh || s.ph is RestartStopped) && gid == s.gid }
 pub open spec fn started_timers_ok(s: Lc) -> bool { !(s.ph is RestartStopped && s.timers_live) }
@@ -39,7 +40,7 @@ pub open spec fn allowed(s: Lc, e: Ev) -> bool {
         Ev::Recreated { .. } => s.ph is RestartStopped,
         // C04: termination is announced only after `stopped` has returned
         Ev::Notify => s.ph is Stopped,
-        Ev::Slept { .. } | Ev::Submit { .. } | Ev::BgRun { .. } => true,
+        Ev::Slept { .. } | Ev::Enq { .. } | Ev::BgRun { .. } | Ev::Handled { .. } | Ev::OsSend { .. } | Ev::OsRecv { .. } => true,
     }
 }
 pub open spec fn step(s: Lc, e: Ev) -> Lc {
@@ -55,6 +56,6 @@ pub open spec fn step(s: Lc, e: Ev) -> Lc {
         Ev::TimersCleared => Lc { timers_live: false, ..s },
         Ev::Recreated { gid } => Lc { gid: gid, recreated: s.recreated + 1, ..s },
         Ev::Notify => Lc { ph: Ph::Done, ..s },
-        Ev::Slept { .. } | Ev::Submit { .. } | Ev::BgRun { .. } => s,
+        Ev::Slept { .. } | Ev::Enq { .. } | Ev::BgRun { .. } | Ev::Handled { .. } | Ev::OsSend { .. } | Ev::OsRecv { .. } => s,
     }
 }
